@@ -62,6 +62,9 @@ template void gsa_use_value<Multi_field_element_with_small_characteristics<2, 23
 template void gsa_use_value<Shared_multi_field_element_with_small_characteristics<unsigned int>, int>(int);
 template void gsa_use_value<Shared_multi_field_element_with_small_characteristics<unsigned int>, long>(long);
 template void gsa_use_value<Shared_multi_field_element_with_small_characteristics<unsigned int>, unsigned int>(unsigned int);
+// (a 64-bit element type: the members used here compile, the whole class does not)
+template void gsa_use_value<Shared_multi_field_element_with_small_characteristics<unsigned long>, long>(long);
+template void gsa_use_value<Shared_multi_field_element_with_small_characteristics<unsigned long>, unsigned long>(unsigned long);
 
 template <class Ops, class I>
 void gsa_use_ops(const Ops& ops, I v) {
